@@ -4,6 +4,7 @@ mod config;
 mod crash;
 mod csvrun;
 mod dec;
+mod deconv;
 mod det;
 mod evgen;
 mod evt;
@@ -134,6 +135,11 @@ fn main() {
         "sym" => {
             let mut run = Runner::new(&args);
             sym::run(&mut run, args.req("data"), args.num("seed", 1), args.get("tier") == Some("thorough"));
+            run.finish();
+        }
+        "deconv" => {
+            let mut run = Runner::new(&args);
+            deconv::run(&mut run, args.req("data"), args.get("in"), args.num("seed", 1), args.get("tier") == Some("thorough"));
             run.finish();
         }
         "config" => {
